@@ -144,7 +144,7 @@ func c01Gen(tier string, emit func(any)) {
 		}
 		// hole sweep: every single sub-expression as expression metavariable, every identifier as identifier metavariable
 		for _, h := range gen.MetaHoles(k.Kind, k.Src) {
-			if k.Kind == "expr" && h.Src == h.MvName {
+			if h.Src == h.MvName {
 				continue // the pattern would be a bare metavariable
 			}
 			p2 := plus
